@@ -504,6 +504,8 @@ pub fn msg_slots() -> Vec<Item> {
         // relations between neighbours: equal elements after a different one, an element whose
         // protected bytes extend the previous one's, an empty entry after a good one
         arr(vec![sig_valid(), sig_valid2(), sig_valid2()]),
+        // neighbours whose protected headers parse alike from different bytes
+        arr(vec![sig_valid(), arr(vec![Item::Bytes(vec![0xa0]), map(vec![]), b(b"\x01")]), sig_valid2(), arr(vec![Item::Bytes(vec![0xa1, 0x01, 0x38, 0x06]), map(vec![(u(4), b(b"11"))]), b(b"\x02")])]),
         arr(vec![sig_valid2(), sigs_malformed_protected()[1].clone()]),
         arr(vec![sig_valid(), arr(vec![])]),
         arr(vec![r_valid_nil.clone(), r_nest2.clone(), r_valid_nil.clone()]),
